@@ -20,8 +20,10 @@
 //!   returned : accepted  =>  presentation / aud / dates / custom claims equal what was signed (every case)
 //!   liveness : E = {} and O = {}  =>  accepted
 //!   blame    : rejected and O = {}  =>  every reported error is of a class that legitimately blames a member of E
-//! Parts: the deviation-bounded exploration over all 19 choice points, and four complete sub-products
-//! (binding core, dates, claims, misc) with all other points at their default.
+//! Parts: the deviation-bounded exploration over all 19 choice points (quick <= 3, thorough <= 4 deviations), two
+//! condition lattices (each stated condition true / false in every combination), the complete products of the
+//! four groups (binding core, dates, claims, misc) and of the pairs dates x claims, claims x misc, and (thorough)
+//! binding core x claims, with all other points at their default.
 
 use identity_core::common::{Object, Timestamp};
 use identity_core::convert::FromJson;
@@ -721,7 +723,7 @@ fn eval(ctx: &Ctx, case: &Case) {
 }
 
 fn generate(ctx: &Ctx) {
-  ctx.rule("E1 choice DFS over 19 choice points (signature, kid, method_id, method_scope, header nonce, option nonce | exp, earliest_expiry_date, nbf, iat, latest_issuance_date | iss, vp.holder, jti/vp.id | aud, custom claims, verifiableCredential, vp shape, vp properties): all sequences with at most `deviation_bound` non-default choices, plus the complete product of each of the four groups with the other groups at default. distinct_nontrivial = distinct (groups, choice sequence) whose execution got past the JWS stage (accepted, or rejected by an error that is not a PresentationJwsError)");
+  ctx.rule("E1 choice DFS over 19 choice points (signature, kid, method_id, method_scope, header nonce, option nonce | exp, earliest_expiry_date, nbf, iat, latest_issuance_date | iss, vp.holder, jti/vp.id | aud, custom claims, verifiableCredential, vp shape, vp properties): all sequences with at most `deviation_bound` non-default choices, plus the complete product of each of the four groups with the other groups at default, the complete products dates x claims and claims x misc (thorough: also binding core x claims), and two condition lattices (every stated condition true / false by a canonical falsifier, all combinations). distinct_nontrivial = distinct (groups, choice sequence) whose execution got past the JWS stage (accepted, or rejected by an error that is not a PresentationJwsError)");
   ctx.assume("Ed25519 signing by iota-crypto and base64url by identity_jose::jwu are trusted for assembling tokens; the real EdDSAJwsVerifier is used for verification");
   ctx.assume("issuance time of a presentation JWT is nbf when present, else iat (VC data model 1.1 §6.3.1 and the documented behaviour of IssuanceDateClaims)");
   ctx.assume("open (recorded, not judged for liveness/blame): foreign-DID method listed in the holder document, kid with a query part, exp above year 9999 or non-integer, issuance below year 0, iat after the bound beside a passing nbf, aud as array, explicit empty verifiableCredential array, vp without the base type");
